@@ -64,3 +64,57 @@ Theorem C20_definition_then_data :
   = load k (extras_after key extras merge ops e0).
 Proof. exact tg_get_pure_guarded. Qed.
 Print Assumptions C20_definition_then_data.
+
+(* ---- the NCEP repair applied to every template once extra entries exist (tables._fix_ncep_descriptors;
+        model NcepFix.fixl, compared with the template the decoder used on every data message of every history).
+        fixl_orig is /repo before "fix: NCEP replication repair leaves a replication with nothing to adopt alone" ---- *)
+From PBK Require Import NcepFix NcepFixProofs NcepFixExamples.
+
+(* a template with nothing to repair (no replication without members: every template built from well-formed
+   standard tables) is left exactly as it is: descriptors the definitions do not touch keep their structure *)
+Theorem C20_ncep_identity : forall ds, cleanl ds = true -> fixl ds = Ok ds.
+Proof. exact fix_identity. Qed.
+Print Assumptions C20_ncep_identity.
+
+(* the repair never raises, whatever the template *)
+Theorem C20_ncep_total : forall ds, exists ds', fixl ds = Ok ds'.
+Proof. exact (proj2 fix_total). Qed.
+Print Assumptions C20_ncep_total.
+
+(* on a proper NCEP layout (an executable condition: the original repair does not raise) nothing is left to repair
+   afterwards, at any depth (the adopted descriptor is repaired too) *)
+Theorem C20_ncep_clean : forall ds ds', is_ok (fixl_orig ds) = true -> fixl ds = Ok ds' -> cleanl ds' = true.
+Proof. exact fix_clean. Qed.
+Print Assumptions C20_ncep_clean.
+
+Theorem C20_ncep_idempotent : forall ds ds', is_ok (fixl_orig ds) = true -> fixl ds = Ok ds' -> fixl ds' = Ok ds'.
+Proof. exact fix_idempotent. Qed.
+Print Assumptions C20_ncep_idempotent.
+
+(* the repair moves ownership only: the descriptors are processed in the same order as before *)
+Theorem C20_ncep_same_processing_order : forall ds ds', fixl ds = Ok ds' -> leavesl ds' = leavesl ds.
+Proof. exact (proj2 fix_leaves). Qed.
+Print Assumptions C20_ncep_same_processing_order.
+
+(* the adoption rule: a replication-only sequence replicates the (repaired) descriptor that follows it *)
+Theorem C20_ncep_adopts_next : forall sid rep a r m rest,
+  is_empty_rep rep = true -> desc_X (desc_id rep) = 1%N ->
+  fixd a = Ok m -> fixl r = Ok rest ->
+  fixl (DCons (DSeq sid (DCons rep DNil)) (DCons a r)) = Ok (DCons (set_members rep (DCons m DNil)) rest).
+Proof. exact fix_adopts_next. Qed.
+Print Assumptions C20_ncep_adopts_next.
+
+(* the repaired code agrees with the original wherever the original did not raise ... *)
+Theorem C20_ncep_agrees_orig : forall ds ds', fixl_orig ds = Ok ds' -> fixl ds = Ok ds'.
+Proof. exact (proj2 fix_agrees_orig). Qed.
+Print Assumptions C20_ncep_agrees_orig.
+
+(* ... and the original raised an error that is not the library's on a template ending with a replication (D33, fixed) *)
+Theorem C20_ncep_orig_refuted : exists ds e, fixl_orig ds = Err e /\ is_lib_err e = false /\ is_ok (fixl ds) = true.
+Proof. exact fix_orig_refuted. Qed.
+Print Assumptions C20_ncep_orig_refuted.
+
+Theorem C20_ncep_nonvacuous :
+  is_ok (fixl_orig tmpl) = true /\ cleanl tmpl = false /\ (match fixl tmpl with Ok t => cleanl t | Err _ => false end) = true.
+Proof. split; [exact nested_repair_orig_ok|exact nested_repair_clean]. Qed.
+Print Assumptions C20_ncep_nonvacuous.
